@@ -70,6 +70,20 @@ type drv struct {
 	srvReg   *prometheus.Registry
 	dispReg  *prometheus.Registry
 	probes   []step
+	carry    []obs // datagrams found queued before a throw-away process ran: part of the next step's observation
+}
+
+// mainDrv is the driver of this process when it can start throw-away processes
+// (nil inside a throw-away process).
+var mainDrv *drv
+
+func (d *drv) drainAll() (res []obs) {
+	for i, s := range d.socks {
+		for _, b := range drain(s) {
+			res = append(res, obs{i, b})
+		}
+	}
+	return res
 }
 
 func ownAddr(second byte) net.IP {
@@ -554,6 +568,7 @@ func (d *drv) listenerAddr(listener int) *net.UDPAddr {
 // and returns every datagram that arrived at any harness socket up to and
 // including the answer to the sentinel, the sentinel's answers apart.
 func (d *drv) exchange(sender, listener int, pkt []byte) (reps []obs, nsent int) {
+	reps, d.carry = d.carry, nil
 	c := d.socks[sender]
 	dst := d.listenerAddr(listener)
 	if _, err := c.WriteToUDP(pkt, dst); err != nil {
@@ -661,7 +676,21 @@ func runProbeArgs(kind, tags, args string) {
 	}
 	cmd := exec.Command(exe, "-out", os.DevNull)
 	cmd.Env = append(os.Environ(), probeEnv+"="+kind+"\t"+tags+"\t"+args)
+	// The datagrams of the case carry this process' harness addresses: the
+	// dispatcher of the throw-away process forwards them to the sockets of this
+	// process, where they would be taken for the effect of the next step driven
+	// here.  What arrives while the throw-away process runs is its output (its
+	// case describes it), not an observation of this process' listeners; what was
+	// queued before it started is kept for the next step.
+	if mainDrv != nil {
+		mainDrv.carry = append(mainDrv.carry, mainDrv.drainAll()...)
+	}
 	outb, _ := cmd.Output()
+	if mainDrv != nil {
+		if n := len(mainDrv.drainAll()); n > 0 {
+			note(fmt.Sprintf("%d datagram(s) sent by the throw-away process to this process' sockets discarded", n))
+		}
+	}
 	relayed := false
 	for _, line := range strings.Split(string(outb), "\n") {
 		p := strings.Split(line, "\t")
